@@ -100,7 +100,7 @@ M("C15", "product-order", OP, "qn = list(chain.from_iterable(op.qn_list for op i
   "quantum numbers aggregated in reverse order")
 M("C15", "mul-factor", OP, "return Op(self.symbol, self.dofs, self.factor * other, self.qn_list)", "return Op(self.symbol, self.dofs, self.factor + other, self.qn_list)", ["factor-algebra"],
   "scalar multiple adds instead of multiplies")
-M("C15", "truediv", OP, "return self * (1/other)", "return self * other", ["factor-algebra", "__truediv__"], "division multiplies")
+M("C15", "truediv", OP, "return self * (1/other)", "return self * other", ["operand-order", "OpSum / "], "division multiplies")
 M("C15", "simplify-drops-qn", OP, "op = Op(op.symbol, op.dofs, op.factor + sum([old_opsum[i].factor for i in identical_indices]), op.qn_list)",
   "op = Op(op.symbol, op.dofs, op.factor + sum([old_opsum[i].factor for i in identical_indices]))", ["qn-carry", "simplify"], "merged term loses its quantum numbers")
 M("C15", "sub", OP, """    def __sub__(self, other):
@@ -109,7 +109,7 @@ M("C15", "sub", OP, """    def __sub__(self, other):
     def __mul__(self, other) -> Union["Op", List["Op"]]:""", """    def __sub__(self, other):
         return self + other
 
-    def __mul__(self, other) -> Union["Op", List["Op"]]:""", ["factor-algebra", "Op.__sub__"], "a - b computed as a + b")
+    def __mul__(self, other) -> Union["Op", List["Op"]]:""", ["operand-order", "Op - Op"], "a - b computed as a + b")
 T("C15", "twin-totuple", OP, "return self.symbol, tuple(self.dofs), self.factor, tuple(tuple(t) for t in self.qn_list)",
   "return tuple(self.dofs), self.symbol, self.factor, tuple(tuple(t) for t in self.qn_list)", "key tuple reordered (shared by eq and hash)")
 T("C15", "twin-neg", OP, "return OpSum([-op for op in self])", "return OpSum([op * -1 for op in self])", "negation written as multiplication")
@@ -529,6 +529,10 @@ M("C06", "ps2-stale-sites", MPS, "                qnbigl, qnbigr, _ = mps._get_b
   ["fresh-labels", "_evolve_tdvp_ps2"], "two-site projector splitting computes the block labels for other sites than it updates")
 M("C17", "ps2-no-operator-swap", MPS, "                mps._update_mps(mps_t, [cidx0, cidx1], qnbigl, qnbigr)\n                if mps.compress_config.ofs is not None:\n                    mpo.try_swap_site(mps.model, mps.compress_config.ofs_swap_jw)",
   "                mps._update_mps(mps_t, [cidx0, cidx1], qnbigl, qnbigr)", ["ofs-pair", "_evolve_tdvp_ps2"], "two-site time evolution swaps sites of the state but not of the operator")
+# ------------------------------------------------------------------------------------------------ round trip: narrowing conversions of numerical content are seen by the run
+M("C14", "load-tensors-cast-to-real", "renormalizer/mps/mp.py", '            mt = npload[f"mt_{i}"]\n            if np.iscomplexobj(mt):\n                mp.dtype = backend.complex_dtype',
+  '            mt = npload[f"mt_{i}"].astype(np.float64)\n            if np.iscomplexobj(mt):\n                mp.dtype = backend.complex_dtype', ["chain-round-trip"],
+  "site tensors of a reloaded operator / state cast to a real type")
 # ------------------------------------------------------------------------------------------------ twin wave 7: the one-site decompositions reproduce the coefficient table (abstract runs on exact data)
 _SYMD = "renormalizer/mps/symbolic_mpo.py"
 M("C01", "graph-cover-sides-swapped", _SYMD, "        colbool, rowbool = bipartite_vertex_cover(bigraph, algo=algo)", "        rowbool, colbool = bipartite_vertex_cover(bigraph, algo=algo)", ["decomposition-exact"],
@@ -633,6 +637,9 @@ _SEED_RULE = {
     "C01-small-factor-terms-dropped": "term-validation", "C03-distance-clamps-small-distances": "prefactor", "C06-mpdm-apply-uses-operator-labels": "qn-",
     "C08-direct-solver-transpose-symmetrisation": "eigen-selection", "C12-vmf-root-projected": "pack-unpack", "C14-mpdm-load-returns-mps": "chain-round-trip",
     "C15-opsum-add-empty-returns-self": "operand-order", "C19-rkf45-weights-interleaved": "order-condition",
+    "C02-todense-order-rows-only": "state-network", "C04-update-ms-drops-sigma-for-left-mpo": "absorb-direction", "C05-svd-qn-two-sort-orders": "svd-sort",
+    "C07-entropy-dm-transpose-symmetrised": "observable-cache", "C09-fehlberg5-digit-typo": "tableau-order", "C10-exact-propagator-gs-excited-frequency": "exact-propagator",
+    "C11-ttns-add-left-dtype": "direct-sum", "C13-vmf-imag-time-in-place": "effect-bound", "C16-sinedvr-endpoint-grid-shift": "sinedvr-grid", "C17-jw-swap-real-factor-array": "factor-dtype",
 }
 _sd = _os.path.join(_V, "seeded")
 for _name in sorted(_os.listdir(_sd)):
